@@ -28,7 +28,7 @@ KwVal(kw, n) == kw[CHOOSE i \in 1..Len(kw) : kw[i].n = n].v
 Fits(ty, val) ==
   \/ ty = "int" /\ val.t = "i"
   \/ ty = "dbl" /\ val.t \in {"d", "i"}
-  \/ ty = "bool" /\ val.t \in {"b", "i"}
+  \/ ty = "bool" /\ val.t = "b"            \* parsed with O! and PyBool_Type: only a bool
   \/ ty = "str" /\ val.t = "s"
   \/ ty = "obj" /\ val.t = "o"
   \/ ty = "arri" /\ val.t = "ai"          \* a list of integers
